@@ -74,6 +74,11 @@ THEOREMS = [
     "Nix.C05.detached_refused_by_extend",
     "Nix.C05.detached_refused_by_roles",
     "Nix.C05.deleted_is_detached",
+    "Nix.C05.shape_positions_setter",
+    "Nix.C05.shape_extents_setter",
+    "Nix.C05.shape_feature_data_setter",
+    "Nix.C05.set_ticks_accepted_iff",
+    "Nix.C05.freeze_ticks",
     "Nix.C05.kept_handle_cases",
     "Nix.C05.detached_stays_detached",
     "Nix.C05.deleted_entity_refused_forever",
@@ -118,7 +123,8 @@ MANIFEST = {
                   "as the model's append does; extend is proved all-or-nothing (every item checked in the unchanged graph, "
                   "extend([x]) = append(x)); a node no group links any more (what a handle kept across the deletion of its "
                   "entity stands for) is proved refused by every list (append and extend), by positions / extents and by "
-                  "feature data, and deleting an entity from its block is proved to leave it such a node - for ALL later histories "
+                  "feature data (the positions / extents / Feature.data setters too are regenerated statement by statement and proved "
+                  "equal to the model on every graph and value: all refusals before the first write), and deleting an entity from its block is proved to leave it such a node - for ALL later histories "
                   "(creations, also under its old name, deletions, append, extend, role links, attribute writes, reopen, and any "
                   "of these calls handed any kept handle: every call only links what was linked before or is new, so the node is "
                   "never linked again and every later state refuses it). The statement lists of "
